@@ -142,6 +142,7 @@ type Engine struct {
 	CrossDismissed int // cross-solver "sat" answers whose model failed validation and which cvc5 refuted
 	CrossSolvers   []string
 	curMaxInput    int
+	freeSeq        int // concrete replay: index of the next unconditional fork
 }
 
 type injApp struct {
@@ -369,7 +370,16 @@ func (e *Engine) chooseFree(n int, what string) int {
 		return 0
 	}
 	if e.Concrete {
-		return 0
+		// replay the unconditional forks (e.g. map iteration orders) recorded with the counterexample
+		k := 0
+		if v, ok := e.ModelIn[fmt.Sprintf("@free#%d", e.freeSeq)]; ok {
+			k = int(v.Int64())
+		}
+		e.freeSeq++
+		if k >= n {
+			k = 0
+		}
+		return k
 	}
 	if !e.live() {
 		ent := &e.log[e.pos]
@@ -392,6 +402,21 @@ func (e *Engine) chooseFree(n int, what string) int {
 	e.log = append(e.log, ent)
 	e.pos++
 	return 0
+}
+
+// addFreeChoices records the unconditional forks taken on the current path in a
+// counterexample, so that the concrete replay takes the same ones.
+func (e *Engine) addFreeChoices(m map[string]string) {
+	if m == nil {
+		return
+	}
+	k := 0
+	for i := 0; i < e.pos && i < len(e.log); i++ {
+		if e.log[i].free {
+			m[fmt.Sprintf("@free#%d", k)] = fmt.Sprintf("0x%x", e.log[i].choice)
+			k++
+		}
+	}
 }
 
 // concretize forks over every feasible value of t (up to ConcCap).
@@ -655,6 +680,7 @@ func (e *Engine) assertObl(fr *frame, c *Term, label string, kf string, kfCond *
 			}
 		}
 		if r == "sat" {
+			e.addFreeChoices(m)
 			w, st := e.whereStack(fr.caller)
 			v := &Violation{Harness: e.Harness, Label: label, Kind: "assert", Message: "assertion can fail", Where: w, Stack: st, Model: m, Order: order, KF: kfid}
 			if kfid != "" && e.KnownOpen[kfid] {
@@ -762,6 +788,7 @@ func (e *Engine) panicViolation(tp targetPanic, stack []string) {
 	var order []string
 	if r == "sat" {
 		m, order = e.modelNow()
+		e.addFreeChoices(m)
 	} else if r != "unsat" {
 		e.Inconclusive = append(e.Inconclusive, "panic path: solver answered "+r)
 		return
